@@ -57,7 +57,6 @@ Definition good (o : outcome) (ts : list token) : Prop :=
   match o with
   | PValue _ => False
   | PSyntax t => In t ts
-  | PRuntime RCollator => exists a b, crank a b = None
   | PRuntime RStarved => ~ has_eof ts
   | PRuntime RUnknownType => bad_type ts
   | PRuntime RPushOverflow => False
@@ -747,7 +746,7 @@ Proof.
       * lia.
       * eapply adv_in; eauto.
     + split; auto. eapply adv_in; eauto.
-    + split; auto. eapply build_collator; eauto.
+    + split; auto. eapply adv_in; eauto.
     + split; auto. exists tyt. repeat split; auto.
       * eapply adv_in; eauto.
       * rewrite <- Ec. eapply build_unknown; eauto.
@@ -860,7 +859,6 @@ Theorem parse_total_tokens ts :
   match parse_tokens fparse crank ts with
   | PValue _ => True
   | PSyntax t => In t ts
-  | PRuntime RCollator => exists a b, crank a b = None
   | _ => False
   end.
 Proof.
@@ -870,19 +868,14 @@ Proof.
   destruct S as (t & It & Ty & Nv). apply Nv. apply Hty; auto.
 Qed.
 
-(* with a collator that does not panic the outcome is a value or a located diagnostic *)
+(* since fix 37 (the Set constructor's panic is a located diagnostic) no hypothesis on the collator is needed *)
 Theorem parse_total_tokens_strict ts :
-  (forall a b, crank a b <> None) ->
   has_eof ts -> (forall t, In t ts -> ttype_of t = TType -> valid_type (tval t)) ->
   match parse_tokens fparse crank ts with
   | PValue _ => True
   | PSyntax t => In t ts
   | _ => False
   end.
-Proof.
-  intros Hc He Hty. pose proof (parse_total_tokens ts He Hty) as S.
-  destruct (parse_tokens fparse crank ts) as [v|t|k|]; auto.
-  destruct k; auto. destruct S as (a & b & E). exact (Hc a b E).
-Qed.
+Proof. exact (parse_total_tokens ts). Qed.
 End Corollaries.
 
